@@ -42,8 +42,10 @@ Floor(n, base) == (n \div base) * base
 \* _clamp(low, value, high)
 ClampTo(low, v, high) == IF v < low THEN low ELSE IF v > high THEN high ELSE v
 
-Lo(p, s) == s - p.backlog
-Hi(p, s) == s + p.surplus
+\* (extended arithmetic: an infinite supply with an infinite allowance is "inf - inf", which
+\*  Python makes a NaN that compares false with everything - no bound at all)
+Lo(p, s) == IF p.backlog >= PosInf THEN NegInf ELSE IF s >= PosInf THEN PosInf ELSE s - p.backlog
+Hi(p, s) == IF p.surplus >= PosInf \/ s >= PosInf THEN PosInf ELSE s + p.surplus
 
 \* _clamp_demand(value) WITHOUT the type(value)(...) conversion: the documented
 \* priority order - window first, minimum/maximum overrule it.
